@@ -157,6 +157,9 @@ class mm_reader {
                 precondition(is >> n >> m >> nnz, format_error());
             }
 
+            precondition(!_symmetric || n == m,
+                    format_error("symmetric matrix is not square"));
+
             if (row_beg < 0) row_beg = 0;
             if (row_end < 0) row_end = n;
 
